@@ -89,13 +89,15 @@ def St.setFwd (s : St) (o : Id) (f : Fwd) : St := { s with fwd := fun o' => if o
 
 /-! ### lanelet registries (lanelet.py:993-1010) -/
 
-/-- `static_obstacles_on_lanelet.add(o)` -/
-def sAdd (r : SReg) (l o : Id) : SReg := fun l' => if l' = l then o :: r l' else r l'
+/-- `static_obstacles_on_lanelet.add(o)` (a set: nothing happens when `o` is already in it) -/
+def sAdd (r : SReg) (l o : Id) : SReg := fun l' => if l' = l then (if o ∈ r l' then r l' else o :: r l') else r l'
 /-- `static_obstacles_on_lanelet.remove(o)` (caller checks membership) -/
 def sDel (r : SReg) (l o : Id) : SReg := fun l' => if l' = l then (r l').filter (· ≠ o) else r l'
 /-- `if d.get(t) is None: d[t] = set()`; `d[t].add(o)` -/
 def dAdd (r : DReg) (l : Id) (t : T) (o : Id) : DReg :=
-  fun l' t' => if l' = l ∧ t' = t then some (o :: (r l' t').getD []) else r l' t'
+  fun l' t' => if l' = l ∧ t' = t then
+      some (if o ∈ (r l' t').getD [] then (r l' t').getD [] else o :: (r l' t').getD [])
+    else r l' t'
 /-- `d[t].discard(o)` (caller checks the key) -/
 def dDel (r : DReg) (l : Id) (t : T) (o : Id) : DReg :=
   fun l' t' => if l' = l ∧ t' = t then (r l' t').map (·.filter (· ≠ o)) else r l' t'
